@@ -1,4 +1,5 @@
 import Memterm.Props.C18
+import Memterm.Proofs.SparseStep
 import Memterm.Spec.C15
 import Memterm.Proofs.StackExt
 
@@ -114,6 +115,13 @@ example :
     display env (reset s) = display env (init 4 3) ∧ (reset s).cursor = (init 4 3).cursor ∧
       (reset s).savepoints.length = 1 := by
   decide
+
+/-! #### the sparse layer -/
+
+/-- RIS clears the buffer: every cell is absent afterwards and reads as the power-on blank -/
+theorem sparse_reset (ss : Sparse.SScreen) :
+    (Sparse.reset ss).buf = [] ∧ Sparse.abs (Sparse.reset ss) = reset (Sparse.abs ss) :=
+  ⟨rfl, Sparse.abs_reset ss⟩
 
 end C15
 end Memterm
